@@ -6,7 +6,7 @@ package engine
 func InstrumentedBuild() bool { return false }
 
 func SetAccessHook(f func(id int, write bool)) {}
-func SetMapOrderHook(f func(n int) []int)       {}
+func SetMapOrderHook(f func(n int) []int)      {}
 func SetSchedHooks(point func(label string), block func(label string, waiting func() bool)) {
 }
 func SetStepHook(f func())  {}
